@@ -8,6 +8,10 @@ import (
 	"github.com/goatcms/goatcore/varutil/goaterr"
 )
 
+// errDirRemoved is returned when a node is added to a directory unlinked from its parent by Remove/RemoveAll.
+// The caller must start again from the root directory (the path is created again).
+var errDirRemoved = goaterr.Errorf("directory was removed")
+
 // Dir is single directory
 type Dir struct {
 	sync.RWMutex
@@ -17,6 +21,7 @@ type Dir struct {
 	nodes    []os.FileInfo
 	index    map[string]os.FileInfo
 	mu       sync.RWMutex
+	removed  bool // true after the directory was unlinked from its parent (guarded by mu)
 }
 
 // NewDir create new directory with nodes
@@ -114,6 +119,9 @@ func (d *Dir) addNode(newNode os.FileInfo) error {
 	d.mu.Lock()
 	defer d.mu.Unlock()
 	nodeName := newNode.Name()
+	if d.removed {
+		return errDirRemoved
+	}
 	if _, ok := d.index[nodeName]; ok {
 		return goaterr.Errorf("node named %s exists", nodeName)
 	}
@@ -139,18 +147,30 @@ func (d *Dir) mkdir(name string, mode os.FileMode) (dir *Dir, err error) {
 		}
 		return dir, nil
 	}
+	if d.removed {
+		return nil, errDirRemoved
+	}
 	dir = NewDir(name, mode, time.Now(), []os.FileInfo{})
 	d.nodes = append(d.nodes, dir)
 	d.index[name] = dir
 	return dir, nil
 }
 
-// removeNodeByName remove a node by name
-func (d *Dir) removeNodeByName(name string) error {
+// removeNodeByName remove a node by name. A directory is tested for emptiness (when emptyOnly is set),
+// marked as removed and unlinked in one step: under the lock of d and the lock of the removed directory.
+func (d *Dir) removeNodeByName(name string, emptyOnly bool) error {
 	d.mu.Lock()
 	defer d.mu.Unlock()
 	for i := 0; i < len(d.nodes); i++ {
 		if d.nodes[i].Name() == name {
+			if sub, ok := d.nodes[i].(*Dir); ok {
+				sub.mu.Lock()
+				defer sub.mu.Unlock()
+				if emptyOnly && len(sub.nodes) != 0 {
+					return goaterr.Errorf("Can not remove empty node")
+				}
+				sub.removed = true
+			}
 			d.nodes = append(d.nodes[:i], d.nodes[i+1:]...)
 			delete(d.index, name)
 			return nil
